@@ -72,6 +72,14 @@ CHECKS = {
                   'ground evaluation and one known finding (Bulgarian U16F600) stays refuted.',
              note=_TB + ' Hungarian range as the property defines it (timed <= zero point, field where the formula >= 0).',
              technique='contract-based deductive verification (equality with exact spec + relational z3 lemmas on the spec) and complete ground adjacency sweeps'),
+ 'C14': dict(category='other',
+             text='For every row of both single-event tables and both genders: calculate_factor on a symbolic age (exact h/2 over the row domain '
+                  'to 20 years past the last column, split at the tabulated ages) never raises and equals the interpolation of the two adjacent '
+                  'non-null entries (z3 equality of exact values + certified float error <= 1e-12); spelling/case independence, best and grade '
+                  'identities (4 ulp), exactly 1.0, strict monotonicity and the combined-events band factors: complete ground evaluation of the '
+                  'property domain. Level other: ground part + one known finding (zero entry in the 2015 women PV row).',
+             note=_TB + ' Case variants that are not event codes (e.g. 5m for 5 miles) may be refused.',
+             technique='contract-based deductive verification (symbolic execution with exact-rational age + float proxy -> LRA -> z3) + complete ground evaluation'),
 }
 _NYB = 'check not built yet in this build round (planned, see DESIGN.md §5); no claim is made'
-NOT_APPLICABLE = {p: _NYB for p in ['C02','C03','C07','C08','C10','C12','C14','C15','C16','C18']}
+NOT_APPLICABLE = {p: _NYB for p in ['C02','C03','C07','C08','C10','C12','C15','C16','C18']}
